@@ -93,8 +93,8 @@ def run(chk, facts):
     try:
         ut = syn.one_fn("unify_type", mod="check::constrain::unify::ty")
         conds = [n for n in walk(ut["body"]) if n.get("k") == "if" and "is_superset_of" in src(n["c"])]
-        c = src(strip(conds[0]["c"])).replace(" ", "") if len(conds) == 1 else ""
-        ok = c == "((l_ty.is_superset_of(r_ty,ctx,left.pos)?||(l_ty==&Name::any()))||(r_ty==&Name::any()))"
+        from .common import disjuncts
+        ok = len(conds) == 1 and disjuncts(conds[0]["c"]) == sorted(["l_ty.is_superset_of(r_ty,ctx,left.pos)?", "l_ty==&Name::any()", "r_ty==&Name::any()"])
         # left = constraint.parent, right = constraint.child
         lr = [n for n in walk(ut["body"]) if n.get("k") == "local" and src(n["pat"]).replace(" ", "") == "(left,right)"]
         ok2 = len(lr) == 1 and src(strip(lr[0]["init"])).replace(" ", "") == "(&constraint.parent,&constraint.child)"
